@@ -1,5 +1,6 @@
 """C11 — IP-restricted automation certificates work only from their netblocks."""
 import json
+import random
 from . import common as c
 
 V4AFI = bytes([0, 1, 1])
@@ -325,6 +326,45 @@ def gen_lib(ctx, n_mint, n_wire, n_raw):
     return ops
 
 
+def gen_cmint(rng, n_ops, rounds):
+    """several requests minted AT THE SAME TIME (one worker each): per worker its own netblock list (1..16 blocks, also longer
+    ones and lists of unequal length, disjoint / sibling / partly shared with the neighbour) and an address from which the
+    certificate is then used: inside its own blocks or inside another worker's"""
+    ops = []
+    for i in range(n_ops):
+        nw = [2, 3, 8, 4, 2, 6, 12, 5][i % 8] if i < 8 else rng.randrange(2, 13)
+        workers = []
+        for g in range(nw):
+            k = rng.choice([1, 2, 3, 5, 8, 12, 16, 16, 17, 24]) if i % 3 else rng.randrange(1, 17)
+            shape = rng.randrange(4)
+            nets = []
+            for j in range(k):
+                if shape == 0:      # the demo's shape of lists: worker-specific first octet, /16s
+                    nets.append((((20 + g) << 24) | (j << 16), 16))
+                elif shape == 1:    # siblings: the same networks as the neighbour but one bit apart
+                    n = rng.randrange(1, 33)
+                    a = ((10 << 24) | (j << 12)) & netmask(n)
+                    nets.append(((a ^ ((g & 1) << (32 - n))) & 0xFFFFFFFF, n))
+                else:
+                    nets.append(rand_block(rng, rng.randrange(33)))
+            if shape == 3 and workers and workers[-1][0] != ["other"]:      # shares a prefix of the neighbour's list
+                nets = (workers[-1][0][:rng.randrange(1, 4)] + nets)[:max(k, 1)]
+            if rng.random() < 0.04:
+                nets = ["other"]
+            workers.append([nets, None, None])
+        for g, w in enumerate(workers):
+            own = [x for x in w[0] if x != "other"]
+            foreign = [x for h, o in enumerate(workers) if h != g for x in o[0] if x != "other"]
+            src = foreign if (foreign and rng.random() < 0.6) else (own or [(0, 0)])
+            a, n = rng.choice(src)
+            pa = (a | (rng.getrandbits(32) & ~netmask(n))) & 0xFFFFFFFF
+            w[1], w[2] = rng.choice(peer_forms(rng, pa)[:2])
+        specs = ["%s@%s" % (",".join("other" if x == "other" else blk(*x) for x in nets) or "-", c.hexs(addr)) for nets, addr, _ in workers]
+        ops.append(("cmint", "cmint %d %s" % (rounds, " ".join(specs)),
+                    {"workers": [(nets, addr, cls) for nets, addr, cls in workers], "rounds": rounds}))
+    return ops
+
+
 HOSTILE_NAMES = ["role2", "admin1", "root", "username", "", "role1 ", "ROLE1"]
 
 
@@ -578,6 +618,8 @@ def run(ctx):
     quick = ctx.quick()
     lib = gen_lib(ctx, 900 if quick else 12000, 500 if quick else 8000, 300 if quick else 6000)
     hnd = gen_handler(ctx, 700 if quick else 9000)
+    # concurrent mints last (own random stream: the ops above stay what they were)
+    lib += gen_cmint(random.Random("C11-cmint-%s" % ctx.seed), 16 if quick else 120, 40 if quick else 150)
     replaying = bool(ctx.replay)
     if ctx.replay:
         rp = json.load(open(ctx.replay))
@@ -602,11 +644,62 @@ def run(ctx):
         ctx.broken.append("harness TestVerifC11Lib did not complete (exit %d, %d/%d lines)" % (rc, len(impl), len(lops)))
         return c.finish(ctx)
     mops, mimpl, jops, jmeta = [], [], [], []
+    cmops, cmimpl, cjops, cjmeta = [], [], [], []      # concurrent mints: (op, worker) per entry
+    hist["concurrent"] = {"ops": 0, "workers": 0, "certificates": 0, "results": 0, "workers_with_several_results": 0,
+                          "verify": {}, "blocks_per_list": {}}
     nontrivial = set()
     dec_panics = []
     for (kind, op, meta), out in zip(lib, impl):
         if out.startswith("bad-op") or out.startswith("cert-error"):
             ctx.broken.append("harness could not run op %r: %s" % (op, out))
+            continue
+        if kind == "cmint":
+            # every certificate a worker got while the others were minting is held against what the statement says about
+            # ITS request alone (model: mint of its list; judge: jmint = c11_member / c11_extract)
+            parts = out.split(" ;; ")
+            workers = meta["workers"]
+            if parts[0] != "workers=%d" % len(workers) or len(parts) != len(workers) + 1:
+                ctx.broken.append("harness could not run op %r: %s" % (op, out[:200]))
+                continue
+            hc = hist["concurrent"]
+            hc["ops"] += 1
+            hc["workers"] += len(workers)
+            hc["certificates"] += 2 * meta["rounds"] * len(workers)
+            for g, ((nets, addr, cls), res) in enumerate(zip(workers, parts[1:])):
+                results = res.split(" || ")
+                hc["results"] += len(results)
+                hc["workers_with_several_results"] += len(results) > 1
+                bump(hc["blocks_per_list"], str(len(nets)))
+                ns = ",".join("other" if x == "other" else blk(*x) for x in nets) or "-"
+                for r in results:
+                    f = kv(r)
+                    if r.startswith("cert-error") or "peer" not in f or "mint" not in f:
+                        ctx.broken.append("harness could not run op %r (worker %d): %s" % (op, g, r[:200]))
+                        continue
+                    if cls is not None and f["peer"] != cls:
+                        ctx.broken.append("generator/peer class: %r worker %d expected %s, net.SplitHostPort/ParseIP say %s" % (op, g, cls, f["peer"]))
+                        continue
+                    cmops.append("mint %s %s" % (ns, f["peer"]))
+                    if f["mint"] == "ok":
+                        cmimpl.append("mint=ok ext=%s parse=%s restricted=%s verify=%s extract=%s" % (
+                            f["ext"], f["parse"], f["restricted"], f["verify"], f["extract"]))
+                        bump(hc["verify"], f["verify"])
+                        if "other" not in nets:
+                            cjops.append("jmint %s %s %s %s" % (ns, f["peer"], f["verify"], f["extract"]))
+                            cjmeta.append((op, g, len(results)))
+                        if f["verify"] == "t":
+                            nontrivial.add("%s#%d" % (op, g))
+                    elif f["mint"] == "PANIC":
+                        cmimpl.append("mint=PANIC")
+                        c.add_violation(ctx, "panic:concurrent:" + op, "GenIPRestrictedX509Cert panicked while %d other requests were minting (worker %d, netblocks %s)"
+                                        % (len(workers) - 1, g, ns), {"lib_op": op, "worker": g, "impl": r})
+                    else:
+                        cmimpl.append("mint=err")
+                        bump(hc["verify"], "refused")
+                        if "other" not in nets:
+                            # statement: a certificate minted for IPv4 netblocks exists; the sequential mint of the same list succeeds
+                            c.add_violation(ctx, "concurrent:" + op, "mint of IPv4 netblocks %s refused while %d other requests were minting (worker %d)"
+                                            % (ns, len(workers) - 1, g), {"lib_op": op, "worker": g, "impl": r})
             continue
         if kind == "decneg":
             bump(hist["dec"], "negative:" + out.split()[0])
@@ -673,6 +766,24 @@ def run(ctx):
         if v != "ok":
             key = ("panic:" if "panic" in v else "lib:") + op
             c.add_violation(ctx, key, "library readers: %s (judge op %s)" % (v, j), {"lib_op": op, "judge": v, "judge_op": j})
+    # concurrent mints: same model, same judge, per worker
+    cmodel = drv(ctx, "model", cmops)
+    cmcanon = []
+    for m in cmodel:
+        if m.startswith("mint=ok"):
+            f = kv(m)
+            m = m.replace("wire=" + f["wire"], "ext=" + der_ext(parse_wire_str(f["wire"])).hex())
+        cmcanon.append(m)
+    c.diff_streams(ctx, "certificates minted while other requests were minting vs KM.IPBlock.mintExt of the request's own netblocks",
+                   cmops, cmimpl, cmcanon)
+    cverdicts = drv(ctx, "judge", cjops)
+    reported = set()
+    for (op, g, nres), j, v in zip(cjmeta, cjops, cverdicts):
+        if v != "ok" and (op, g) not in reported and len(reported) < 6:
+            reported.add((op, g))
+            key = ("panic:concurrent:" if "panic" in v else "concurrent:") + op
+            c.add_violation(ctx, key, "certificate minted while %d other requests were minting (worker %d of the op, %d distinct results): %s (judge op %s)"
+                            % (len(op.split()) - 3, g, nres, v, j), {"lib_op": op, "worker": g, "judge": v, "judge_op": j})
     for op in dec_panics[:3]:
         c.add_violation(ctx, "panic:" + op, "decodeIPV4AddressChoice panicked (index out of range), direct call; %d such ops" % len(dec_panics),
                         {"lib_op": op, "impl": "PANIC"})
@@ -910,7 +1021,8 @@ def run(ctx):
         ctx.broken.append("generator covered %d of 33 prefix lengths" % hist["prefix_lengths_minted"])
     ctx.coverage.update({
         "evaluations": len(lops) + 2 * len(all_hnd) + len(all_gets) + 2 * len(umops) + 3 * len(smops),
-        "library_ops": len(lops), "handler_requests": 2 * len(hnd) + len(gets) + 2 * len(umops), "judged": len(jops) + len(ujops) + len(ajops) + len(sjops),
+        "library_ops": len(lops), "handler_requests": 2 * len(hnd) + len(gets) + 2 * len(umops), "judged": len(jops) + len(ujops) + len(ajops) + len(sjops) + len(cjops),
+        "certificates_minted_concurrently": hist["concurrent"]["certificates"],
         "refreshes_with_hostile_form_parameters": hist.get("with_form_params", 0), "uses_of_refreshed_certificates": 2 * len(umops),
         "distinct_nontrivial": len(nontrivial),
         "rule": "non-trivial = distinct ops on which the implementation admitted a peer / issued a certificate, extracted netblocks "
@@ -979,6 +1091,9 @@ def lib_op_from_line(line):
         return ("enc", line, {})
     if f[0] == "mint":
         return ("mint", line, {"nets": parse_blocks(f[1]), "peer": None})
+    if f[0] == "cmint":
+        return ("cmint", line, {"rounds": int(f[1]),
+                                "workers": [(parse_blocks(x.split("@")[0]), c.unhexs(x.split("@")[1]), None) for x in f[2:]]})
     return ("raw", line, {"peer": None})
 
 
